@@ -16,7 +16,7 @@ def quote_if_needed(x):
     if isinstance(x, str):
         # Anything but a plain identifier (hyphens, spaces, dots, quotes, ...)
         # can only be written as a quoted path step.
-        if not re.match(r"^[a-zA-Z_][a-zA-Z0-9_]*$", x):
+        if not re.fullmatch(r"[a-zA-Z_][a-zA-Z0-9_]*", x):
             if not x.startswith("'"):
                 return "'" + escape_quotes_and_backslashes(x) + "'"
     return x
